@@ -16,6 +16,7 @@ import (
 	"sort"
 	"strings"
 	"sync"
+	"time"
 
 	"pgregory.net/rapid"
 )
@@ -95,14 +96,31 @@ type Replay struct {
 	Note     string          `json:"note,omitempty"`
 }
 
-// SafeCheck runs the check and converts an unexpected panic into an error.
-func SafeCheck(p *Prop, c any, st *Stats) (err error) {
-	defer func() {
-		if r := recover(); r != nil {
-			err = fmt.Errorf("unexpected panic: %v\n%s", r, trimStack(debug.Stack()))
-		}
+// caseWatchdog bounds one case: every check takes micro- to milliseconds (the largest generated inputs a
+// few seconds), so a case still running after this long waits for something that will never happen - a
+// lock the library took twice or left locked on an error path. The clock can only turn such a hang into a
+// report (HangError: recorded unshrunk, the process stops).
+const caseWatchdog = 60 * time.Second
+
+// SafeCheck runs the check under the case watchdog and converts an unexpected panic into an error.
+func SafeCheck(p *Prop, c any, st *Stats) error {
+	done := make(chan error, 1)
+	go func() {
+		defer func() {
+			if r := recover(); r != nil {
+				done <- fmt.Errorf("unexpected panic: %v\n%s", r, trimStack(debug.Stack()))
+			}
+		}()
+		done <- p.Check(c, st)
 	}()
-	return p.Check(c, st)
+	timer := time.NewTimer(caseWatchdog)
+	defer timer.Stop()
+	select {
+	case err := <-done:
+		return err
+	case <-timer.C:
+		return hangf("the case did not finish within %v: a call of the library never returned (for example a lock taken twice, or left locked by an earlier call that panicked)", caseWatchdog)
+	}
 }
 
 func trimStack(b []byte) string {
